@@ -226,6 +226,10 @@ func c12HostCases() []hostCase {
 		mk("recursive-type", "cyclic struct", func() interface{} { n := &c12Node{V: 1}; n.Next = n; return n }),
 		mk("recursive-type", "cyclic map", func() interface{} { m := map[string]interface{}{}; m["x"] = m; return m }),
 		mk("recursive-type", "cyclic slice", func() interface{} { s := []interface{}{nil}; s[0] = s; return x(s) }),
+		// pointer / interface chains that lead back to themselves (F25: the unwrap loops of conv never ended)
+		mk("recursive-type", "self-referential interface x = &x", func() interface{} { var v interface{}; v = &v; return v }),
+		mk("recursive-type", "self-referential interface inside a map", func() interface{} { var v interface{}; v = &v; return map[string]interface{}{"x": v} }),
+		mk("recursive-type", "two interfaces pointing at each other", func() interface{} { var a, b interface{}; a = &b; b = &a; return a }),
 		mk("numeric-kinds", "all int / uint / float kinds, array", func() interface{} {
 			return map[string]interface{}{"x": int8(1), "y": uint64(1 << 63), "z": float32(1.5), "w": [3]uint16{1, 2, 3}, "v": []byte("ab")}
 		}),
